@@ -140,8 +140,6 @@ pub fn profile_for(id: &str, rng: &mut Rng) -> Profile {
             p.max_tables = 2;
             p.w_ddl = 3;
             p.max_inserts_per_table = 100;
-            p.guards.retain(|g| g != "more_than_32_inserts_per_table");
-            p.guards.push("more_than_100_inserts_per_table".into());
             p.min_events = 90;
             p.max_events = rng.range(100, 170) as u32;
             p.w_auto = 60;
@@ -165,8 +163,6 @@ pub fn profile_for(id: &str, rng: &mut Rng) -> Profile {
                 p.text_cols = true;
                 p.pad_text = 450;
                 p.max_inserts_per_table = 90;
-                p.guards.retain(|g| g != "more_than_32_inserts_per_table");
-                p.guards.push("more_than_100_inserts_per_table".into());
                 p.min_events = 30;
                 p.max_events = rng.range(40, 90) as u32;
                 p.w_auto = 60;
@@ -259,8 +255,6 @@ pub fn profile_for(id: &str, rng: &mut Rng) -> Profile {
                 p.max_inserts_per_table = 100;
                 p.max_tables = 2;
                 p.max_events = rng.range(50, 90) as u32;
-                p.guards.retain(|g| g != "more_than_32_inserts_per_table");
-                p.guards.push("more_than_100_inserts_per_table".into());
                 p.min_events = 25;
                 p.max_events = rng.range(30, 60) as u32;
                 p.updates = false;
@@ -269,6 +263,17 @@ pub fn profile_for(id: &str, rng: &mut Rng) -> Profile {
                 p.w_reopen = 0;
                 p.w_ddl = 2;
                 p.w_auto = 60;
+            } else if rng.chance(20) {
+                // long histories: several checkpoints, reopens and sessions follow one another, so that
+                // what one of them left on disk or in the log is what the next crash recovers over
+                // (findings R1 / R1b needed checkpoint -> unfinished DELETE -> log flush -> crash on a
+                // table that got a UNIQUE index earlier; histories of 6-24 events almost never line that up)
+                p.min_events = if id == "C08" { 20 } else { 40 };
+                p.max_events = if id == "C08" { rng.range(24, 40) } else { rng.range(50, 110) } as u32;
+                p.w_flush = *rng.pick(&[4, 10]);
+                p.w_reopen = *rng.pick(&[0, 4]);
+                p.ddl_rich = rng.chance(60);
+                p.constraints = rng.chance(50);
             }
             p.guards.push("crash_after_stolen_page".into()); // S1 (fault-space guard)
             p.guards.push("checkpoint_with_open_txn".into()); // F4
@@ -284,11 +289,19 @@ pub fn profile_for(id: &str, rng: &mut Rng) -> Profile {
         }
         _ => {}
     }
+    // long lives (since the repair of D9 / D15b a table is no longer limited to 32 inserts): an eighth
+    // of the histories keeps one or two tables for a few hundred statements, so that trees and
+    // catalog rows live through many more transactions than the short histories give them
+    if matches!(id, "C03" | "C04" | "C06" | "C07" | "C09" | "C13" | "C15" | "C16" | "C20") && p.pad_text == 0 && p.txn_burst == 0 && rng.chance(12) {
+        p.max_inserts_per_table = 400;
+        p.min_events = 120;
+        p.max_events = rng.range(150, 320) as u32;
+        p.max_tables = p.max_tables.min(2);
+    }
     // experiment knob (never set by the registered checks): longer lives per table
     if let Ok(v) = std::env::var("AXSIM_MAXINS") {
         let n: u32 = v.parse().unwrap_or(18);
         p.max_inserts_per_table = n;
-        p.guards.retain(|g| g != "more_than_32_inserts_per_table" && g != "more_than_100_inserts_per_table");
         p.min_events = p.min_events.max(n / 2);
         p.max_events = p.max_events.max(n * 2);
     }
